@@ -9,6 +9,7 @@
    (model/Rules.v). *)
 From Coq Require Import List NArith ZArith Bool.
 From MevVerif Require Import lib.Bytes model.Rules model.ProviderSvc proofs.ProviderSvc_proofs.
+From MevVerif Require check.Check_C12 proofs.Check_C12_proofs.
 Import ListNotations.
 Open Scope N_scope.
 
@@ -87,3 +88,49 @@ Theorem C12_abandon_step : forall s h b,
   (forall d ch, d <> b_dig b -> (In (d, ch) (pending s') <-> In (d, ch) (pending s))).
 Proof. exact (abandon_removes rules_validators). Qed.
 Print Assumptions C12_abandon_step.
+
+(* Positive delivery: in every reachable state, a well-formed decision arriving on a serving stream whose
+   digest HAS a pending entry is delivered -- by its Lookup and Callback steps -- to exactly the channel of
+   the call owning that entry, with exactly that status; the entry is consumed, the stream keeps serving,
+   every other channel is untouched.  ("emitted"/"taken" in this file means handed to a ReceiveBids
+   goroutine through s.receiver; a failing srv.Send afterwards loses the bid while its entry stays.) *)
+Theorem C12_delivered : forall evs sid d st ch,
+  let s := run rules_validators evs in
+  sget sid s = SIdle -> provider_response_ok d st = true -> pget d (pending s) = Some ch ->
+  let s' := step rules_validators (step rules_validators s (Lookup sid d st)) (Callback sid) in
+  cget ch s' = CFull st /\ In (EDeliver ch d st) (eff s') /\ pget d (pending s') = None /\
+  sget sid s' = SIdle /\ panicked s' = false /\
+  (forall ch', ch' <> ch -> cget ch' s' = cget ch' s).
+Proof. exact (delivered_step rules_validators). Qed.
+Print Assumptions C12_delivered.
+
+(* A malformed decision (status outside {ACCEPTED, REJECTED}) ends that RPC and nothing else: map,
+   channels, calls and every other stream are untouched, nothing is delivered; the ended stream then
+   processes nothing further. *)
+Theorem C12_malformed : forall s sid d st,
+  panicked s = false -> sget sid s = SIdle -> provider_response_ok d st = false ->
+  let s' := step rules_validators s (Lookup sid d st) in
+  pending s' = pending s /\ chans s' = chans s /\ calls s' = calls s /\ sget sid s' = SEnded /\
+  (forall x, x <> sid -> sget x s' = sget x s) /\ eff s' = EStreamEnd sid true :: eff s /\ panicked s' = false.
+Proof. exact (malformed_step rules_validators). Qed.
+Print Assumptions C12_malformed.
+
+Theorem C12_ended_stream_inert : forall s sid d st,
+  sget sid s = SEnded ->
+  step rules_validators s (Lookup sid d st) = s /\ step rules_validators s (Callback sid) = s.
+Proof. exact (ended_stream_inert rules_validators). Qed.
+Print Assumptions C12_ended_stream_inert.
+(* Non-vacuity under the validator of these statements: ex_rules_validators (proofs/ProviderSvc_proofs.v). *)
+
+(* The property checker of the correspondence (check/Check_C12.v) raises no alarm on the model's own
+   prediction -- partial: proved for the clause "forwarded-invalid" and for the at-most-once half of
+   "fields-differ"; for the clauses double-delivery, stream-ended, leak and decision-dropped the absence of
+   false alarms rests on the runs (no theorem yet). *)
+Theorem C12_checker_accepts_model_partial : forall i l,
+  Check_C12.chk_forwarded_valid (Check_C12_proofs.model_case i l) = true /\
+  Check_C12.nodupb (map fst (Check_C12.o_emitted (Check_C12.ob (Check_C12_proofs.model_case i l)))) = true.
+Proof.
+  exact (fun i l => conj (Check_C12_proofs.checker_accepts_model_forwarded i l)
+                         (Check_C12_proofs.checker_accepts_model_forward_once i l)).
+Qed.
+Print Assumptions C12_checker_accepts_model_partial.
